@@ -642,6 +642,16 @@ func (e *Engine) trCall(env *SpecEnv, n SCall) Val {
 		}
 		_, ub := e.boxFns(t)
 		return Val{T: "(" + ub + " " + x.T + ")", S: e.sortOf(t), GoT: t}
+	case "sprintf1":
+		// sprintf1("format", x): fmt.Sprintf(format, x)
+		x := arg(1)
+		bx := x.T
+		if x.GoT != nil && !types.IsInterface(x.GoT) {
+			b, _ := e.boxFns(x.GoT)
+			bx = "(" + b + " " + x.T + ")"
+		}
+		e.sc.declareFun("sprintf_1", []string{"String", "Int"}, "String")
+		return Val{T: "(sprintf_1 " + arg(0).T + " " + bx + ")", S: "String", GoT: tString}
 	case "matches":
 		// matches(s, "regex"): s is matched by the Go regular expression literal (translated to an SMT regular expression)
 		lit, ok := n.Args[1].(SStr)
